@@ -20,7 +20,7 @@ EXPLANATION = (
     'to the send queue exactly once; (e) a published lease is announced with its own count and its time-to-live '
     'through the millisecond conversion (shared with C16.a), and (shared with C08.g) a request and its own control '
     'frames pass the same FIFO. Not decided: expiry at a given instant, FIFO as observed on the wire.')
-EXPLANATION_ADDED = ("(f) only new requests are held or consume an allowance, and only behind a true honor_lease test; (g) the attributes the gate reads are the constructor's arguments, replaced by a default only when None; the release loop dequeues only after non-empty and a granted allowance and ends only on empty or refusal; the lease publisher is subscribed exactly when leases are in use and every published value is installed for the responder gate and announced; LEASE frames reach handle_lease (dispatch row).")
+EXPLANATION_ADDED = ("(f) only new requests are held or consume an allowance, and only behind a true honor_lease test; (g) the attributes the gate reads are the constructor's arguments, replaced by a default only when None; the release loop dequeues only after non-empty and a granted allowance and ends only on empty or refusal; the lease publisher is subscribed exactly when leases are in use and every published value is installed for the responder gate and announced; LEASE frames reach handle_lease (dispatch row). (h) the lease hold queue is built with the configured request_queue_size and every producer uses put_nowait() without catching QueueFull, so no more than the configured number of requests is retained and none waits outside the FIFO.")
 EXPLANATION = EXPLANATION.replace(' Not decided', ' ' + EXPLANATION_ADDED + ' Not decided', 1) \
     if ' Not decided' in EXPLANATION else EXPLANATION + ' ' + EXPLANATION_ADDED
 ASSUMPTIONS = COMMON_ASSUMPTIONS
@@ -498,6 +498,73 @@ def rule_dispatch(ctx):
     dispatch.rule_routing(ctx, 'C01.e', only=['LeaseFrame'])
 
 
+def rule_hold_queue_bound(ctx):
+    """Requests made without a lease are retained *up to the configured queue size* and released first-in first-out:
+    the hold queue is built with the application's request_queue_size, and every producer puts with put_nowait() and
+    lets QueueFull reach the caller.  A producer that waits for room instead (an awaited put, a task doing the put)
+    retains more than the configured number - and the waiting put is woken by the release loop and lands behind
+    requests made later."""
+    rep = ctx.report
+    slots = ctx.slots
+    base = slots.RSocketBase
+    q = slots.request_queue_attr
+    # the bound
+    ctor = [(f, st) for f, st, v in ctx.repo.attr_assignments(slots.RSocketClient, q) +
+            ctx.repo.attr_assignments(slots.RSocketServer, q)
+            if isinstance(v, ast.Call) and 'Queue' in ast.unparse(v.func)]
+    seen = set()
+    ctor = [(f, st) for f, st in ctor if not (id(st) in seen or seen.add(id(st)))]
+    if not ctor:
+        raise AnalysisError('C14.h: the lease hold queue is constructed nowhere')
+    ok, detail = True, ''
+    init_params = set(base.lookup('__init__').params())
+    for f, st in ctor:
+        size = st.value.args[0] if st.value.args else next(
+            (kw.value for kw in st.value.keywords if kw.arg == 'maxsize'), None)
+        names = {x.attr if isinstance(x, ast.Attribute) else x.id for x in ast.walk(size)
+                 if isinstance(x, (ast.Name, ast.Attribute))} if size is not None else set()
+        if size is None or not any('request_queue_size' in n_ for n_ in names):
+            ok, detail = False, 'the hold queue built in %s is not bounded by the configured request_queue_size' % \
+                f.short
+    rep.add('C14.h', 'lease hold queue / bounded by the configured size', ctor[0][0], ok,
+            detail or 'Queue(<request_queue_size>) at every construction (%d)' % len(ctor))
+    # the producers
+    prods = []
+    for k in (base, slots.RSocketClient, slots.RSocketServer):
+        for m in k.methods.values():
+            parents = {}
+            for a in ast.walk(m.node):
+                for b in ast.iter_child_nodes(a):
+                    parents[b] = a
+            for c in walk_local(m.node):
+                if isinstance(c, ast.Call) and isinstance(c.func, ast.Attribute) and c.func.attr in ('put', 'put_nowait') \
+                        and isinstance(c.func.value, ast.Attribute) and c.func.value.attr == q:
+                    guarded = None
+                    x = c
+                    while x in parents:
+                        x = parents[x]
+                        if isinstance(x, ast.Try):
+                            for h in x.handlers:
+                                t = ast.unparse(h.type) if h.type is not None else 'BaseException'
+                                if any(w in t for w in ('QueueFull', 'Exception', 'BaseException')) and not any(
+                                        isinstance(r, ast.Raise) for st2 in h.body for r in ast.walk(st2)):
+                                    guarded = t
+                    prods.append((m, c, guarded))
+    if not prods:
+        raise AnalysisError('C14.h: nothing puts into the lease hold queue')
+    ok, detail = True, ''
+    for m, c, guarded in prods:
+        if c.func.attr != 'put_nowait':
+            ok, detail = False, ('%s (line %d) waits for room in the hold queue instead of failing: more than the '
+                                 'configured number of requests is retained, and the late put lands behind later '
+                                 'requests' % (m.short, c.lineno))
+        elif guarded:
+            ok, detail = False, '%s (line %d) swallows %s of the hold queue: the overflow is not reported' % (
+                m.short, c.lineno, guarded)
+    rep.add('C14.h', 'lease hold queue / overflow reaches the caller', prods[0][0], ok,
+            detail or 'put_nowait() only, QueueFull not caught (%d producers)' % len(prods))
+
+
 RULES = [('C14.a', rule_a), ('C14.b', rule_b), ('C14.c', rule_c), ('C14.d', rule_d), ('C14.e', rule_e),
          ('C08.g', rule_f),
-         ('C14.f', rule_gate_scope), ('C14.g', rule_ctor), ('C14.d+C14.e', rule_plumbing), ('C01.e', rule_dispatch)]
+         ('C14.f', rule_gate_scope), ('C14.g', rule_ctor), ('C14.d+C14.e', rule_plumbing), ('C01.e', rule_dispatch), ('C14.h', rule_hold_queue_bound)]
